@@ -2,10 +2,13 @@
 # Re-runs every seeded change against the current checks: for each seeded/<id>/patch.diff a scratch worktree of /repo gets the
 # patch, the property's quick check runs with VERIF_REPO pointing at it, and the verdict (exit 1 = caught) is tabulated.
 # usage: tools/replay_seeds.sh [ids...]   (default: all)    output: seeded/REPLAY_RESULTS.txt
+# GEN_ONLY=1 switches the saved regression cases off (VERIF_NO_REGRESSIONS), so the verdict says what the generators find on
+# their own at VERIF_SEED (default 1); output then goes to seeded/REPLAY_RESULTS_generators_only.txt
 cd /verif || exit 2
 WT=/tmp/seedcheck_$$
 git -C /repo worktree add -q --detach "$WT" HEAD || exit 2
 OUT=seeded/REPLAY_RESULTS.txt
+[ -n "$GEN_ONLY" ] && { OUT=seeded/REPLAY_RESULTS_generators_only.txt; export VERIF_NO_REGRESSIONS=1; }
 [ $# -eq 0 ] && : > "$OUT"
 IDS="$*"
 [ -z "$IDS" ] && IDS=$(ls seeded | grep '^C[0-9]' | sort)
